@@ -1,1 +1,278 @@
 // Kani contract harnesses for /repo/arrow-string/src/substring.rs (child module: sees private items via super::)
+use super::*;
+#[path = "/verif/kani/support/spec.rs"]
+mod spec;
+use spec::*;
+use arrow_buffer::{BooleanBuffer, Buffer, ScalarBuffer};
+
+// ---------------------------------------------------------------------------------------------
+// model helpers (spec side)
+// ---------------------------------------------------------------------------------------------
+/// a symbolic scalar value: any ASCII char, or one 2-byte ('é'), 3-byte ('€'), 4-byte ('😀') scalar
+fn sym_char() -> char {
+    let k: u8 = kani::any();
+    kani::assume(k <= 0x82);
+    if k < 0x80 { k as char } else if k == 0x80 { 'é' } else if k == 0x81 { '€' } else { '😀' }
+}
+/// a symbolic Unicode scalar value whose UTF-8 encoding has exactly `w` bytes (full range of that class)
+fn sym_char_w(w: u8) -> char {
+    let u: u32 = kani::any();
+    match w {
+        1 => kani::assume(u < 0x80),
+        2 => kani::assume(u >= 0x80 && u < 0x800),
+        3 => kani::assume(u >= 0x800 && u < 0x10000 && !(u >= 0xD800 && u < 0xE000)),
+        _ => kani::assume(u >= 0x10000 && u < 0x110000),
+    }
+    char::from_u32(u).unwrap()
+}
+fn width(c: char) -> usize { let u = c as u32; if u < 0x80 { 1 } else if u < 0x800 { 2 } else if u < 0x10000 { 3 } else { 4 } }
+/// hand-written UTF-8 encoder
+fn put(buf: &mut [u8], pos: usize, c: char) -> usize {
+    let u = c as u32;
+    if u < 0x80 { buf[pos] = u as u8; 1 }
+    else if u < 0x800 { buf[pos] = 0xC0 | (u >> 6) as u8; buf[pos + 1] = 0x80 | (u & 0x3F) as u8; 2 }
+    else if u < 0x10000 { buf[pos] = 0xE0 | (u >> 12) as u8; buf[pos + 1] = 0x80 | ((u >> 6) & 0x3F) as u8; buf[pos + 2] = 0x80 | (u & 0x3F) as u8; 3 }
+    else { buf[pos] = 0xF0 | (u >> 18) as u8; buf[pos + 1] = 0x80 | ((u >> 12) & 0x3F) as u8; buf[pos + 2] = 0x80 | ((u >> 6) & 0x3F) as u8; buf[pos + 3] = 0x80 | (u & 0x3F) as u8; 4 }
+}
+fn str_of(buf: &[u8], len: usize) -> &str { unsafe { std::str::from_utf8_unchecked(&buf[..len]) } }
+
+/// char-index window [a, b) of a string of n chars for (start, length): the straightforward definition.
+///   start >= 0: a = min(start, n);   start < 0: a = max(n - |start|, 0);   b = min(a + length, n) or n.
+/// (mathematical integers: i128)
+fn window(n: usize, start: i64, length: Option<usize>) -> (usize, usize) {
+    let n = n as i128;
+    let s = start as i128;
+    let a = if s >= 0 { if s < n { s } else { n } } else { if n + s > 0 { n + s } else { 0 } };
+    let b = match length { None => n, Some(l) => { let e = a + l as i128; if e < n { e } else { n } } };
+    (a as usize, b as usize)
+}
+
+// ---------------------------------------------------------------------------------------------
+// index arithmetic of substring_by_char: FULL domain of start and length
+// ---------------------------------------------------------------------------------------------
+
+// Contract (C20, character-based substring): for every string of <= 3 scalar values (each any ASCII char or
+// a 2-, 3-, 4-byte scalar), EVERY start: i64 and EVERY length: Option<usize>:
+//   utf8_bounds(val, start, length) == (byte offset of char index a, byte offset of char index b) where
+//   [a, b) = window(n_chars, start, length); in particular both lie on char boundaries, a <= b <= len.
+// @unit name=utf8_bounds_def props=C20 kind=bounded bound=value<=3_chars_of_1..4_bytes_start_and_length_full_domain fns=utf8_bounds timeout=900 mem=4 tier=thorough
+#[kani::proof]
+#[kani::unwind(8)]
+fn utf8_bounds_def() {
+    let c: [char; 3] = [sym_char(), sym_char(), sym_char()];
+    let n: usize = kani::any();
+    kani::assume(n <= 3);
+    let mut buf = [0u8; 12];
+    let mut off = [0usize; 4];           // off[i] = byte offset of char index i (off[n] = len)
+    let mut i = 0;
+    while i < 3 { off[i + 1] = if i < n { off[i] + put(&mut buf, off[i], c[i]) } else { off[i] }; i += 1; }
+    let len = off[n];
+    let start: i64 = kani::any();
+    let length: Option<usize> = kani::any();
+    let (a, b) = window(n, start, length);
+    let (s, e) = utf8_bounds(str_of(&buf, len), start, length);
+    assert!(s == off[a] && e == off[b]);
+    assert!(s <= e && e <= len);
+    kani::cover!(start < 0 && a > 0 && b < n);
+    kani::cover!(start > 0 && a < n && b < n && off[a] > a);
+    kani::cover!(start == i64::MIN);
+    kani::cover!(matches!(length, Some(l) if l == usize::MAX));
+    kani::cover!(start < -3 && n == 3);
+    kani::cover!(start > 3);
+}
+
+// Contract (C20): the ASCII fast path: for every ASCII string of <= 4 bytes, every start: i64 and every
+// length: Option<usize>: ascii_bounds(val, start, length) == window(len, start, length) (1 char = 1 byte).
+// @unit name=ascii_bounds_def props=C20 kind=bounded bound=value<=4_ascii_bytes_start_and_length_full_domain fns=ascii_bounds timeout=300
+#[kani::proof]
+#[kani::unwind(8)]
+fn ascii_bounds_def() {
+    let b: [u8; 4] = kani::any();
+    let n: usize = kani::any();
+    kani::assume(n <= 4 && b[0] < 0x80 && b[1] < 0x80 && b[2] < 0x80 && b[3] < 0x80);
+    let start: i64 = kani::any();
+    let length: Option<usize> = kani::any();
+    let got = ascii_bounds(str_of(&b, n), start, length);
+    assert!(got == window(n, start, length));
+    kani::cover!(start < 0 && got.0 > 0 && got.1 < n);
+    kani::cover!(start == i64::MIN);
+    kani::cover!(matches!(length, Some(l) if l == usize::MAX) && start > 0);
+}
+
+// ---------------------------------------------------------------------------------------------
+// array level
+// ---------------------------------------------------------------------------------------------
+macro_rules! sel { (true, $a:expr, $b:expr) => { $a }; (false, $a:expr, $b:expr) => { $b }; }
+
+/// Build a 2-row StringArray with concrete per-char widths (0 = absent), symbolic scalars of that width.
+/// Returns (array, bytes, byte offsets of the rows [3], char boundary flags per byte position).
+fn mk_rows(w: [[u8; 3]; 2], valid: Option<u8>) -> (GenericStringArray<i32>, [u8; 24], [usize; 3], [bool; 25]) {
+    let mut buf = [0u8; 24];
+    let mut boundary = [false; 25];
+    let mut pos = 0usize;
+    let mut offs = [0usize; 3];
+    let mut r = 0;
+    while r < 2 {
+        let mut c = 0;
+        while c < 3 {
+            if w[r][c] != 0 {
+                boundary[pos] = true;
+                let n = put(&mut buf, pos, sym_char_w(w[r][c]));
+                assert!(n == w[r][c] as usize);
+                pos += w[r][c] as usize;           // concrete advance (grid rule)
+            }
+            c += 1;
+        }
+        boundary[pos] = true;
+        offs[r + 1] = pos;
+        r += 1;
+    }
+    let ob = OffsetBuffer::<i32>::new(ScalarBuffer::from(vec![offs[0] as i32, offs[1] as i32, offs[2] as i32]));
+    let nulls = valid.map(|b| NullBuffer::new(BooleanBuffer::new(Buffer::from_slice_ref(&[b]), 0, 2)));
+    // SAFETY: offsets monotone and in bounds; values are encodings of scalar values
+    let a = unsafe { GenericStringArray::<i32>::new_unchecked(ob, Buffer::from_slice_ref(&buf[..pos]), nulls) };
+    (a, buf, offs, boundary)
+}
+fn nchars(w: [u8; 3]) -> usize { (w[0] != 0) as usize + (w[1] != 0) as usize + (w[2] != 0) as usize }
+/// byte offset (within the row) of char index i for the concrete width row w (chars are packed from index 0)
+fn char_off(w: [u8; 3], i: usize) -> usize {
+    let mut o = 0; let mut k = 0; let mut seen = 0;
+    while k < 3 { if w[k] != 0 { if seen < i { o += w[k] as usize; } seen += 1; } k += 1; }
+    o
+}
+
+// Contract (C20, character-based substring on arrays; "outputs are valid UTF-8"): for a 2-row StringArray of
+// the given concrete char widths with symbolic scalars and symbolic validity, CONCRETE (start, length)
+// (grid rule: the output allocation is sized from them):
+//   Ok(out), 2 rows, validity preserved, offsets = prefix sums of the row results (null rows contribute 0),
+//   every valid row k == the bytes of chars [a,b) of input row k, [a,b) = window(n_chars(k), start, length);
+//   i.e. a char-indexed slice of the model (valid UTF-8 by construction).
+// The index arithmetic for ALL start/length is covered by utf8_bounds_def / ascii_bounds_def.
+macro_rules! by_char_unit {
+    ($name:ident, $w:expr, $start:expr, $length:expr) => {
+        #[kani::proof]
+        #[kani::unwind(26)]
+        #[kani::stub(alloc::fmt::format, stub_format)]
+        fn $name() {
+            const W: [[u8; 3]; 2] = $w;
+            let bits: u8 = kani::any();
+            let (arr, buf, offs, _bd) = mk_rows(W, Some(bits));
+            let out = substring_by_char::<i32>(&arr, $start, $length);
+            assert!(out.is_ok());
+            if let Ok(o) = &out {
+                assert!(o.len() == 2);
+                let oo = o.value_offsets();
+                assert!(oo.len() == 3 && oo[0] == 0);
+                let mut acc = 0usize;
+                let mut k = 0;
+                while k < 2 {
+                    let valid = (bits >> k) & 1 == 1;
+                    assert!(o.is_valid(k) == valid);
+                    let lopt: Option<u64> = $length;
+                    let (a, b) = window(nchars(W[k]), $start, lopt.map(|l| l as usize));
+                    let (ba, bb) = (char_off(W[k], a), char_off(W[k], b));
+                    let want_len = if valid { bb - ba } else { 0 };
+                    assert!(oo[k + 1] as usize == acc + want_len);
+                    if valid {
+                        let v = o.value(k).as_bytes();
+                        assert!(v.len() == want_len);
+                        let mut j = 0;
+                        while j < want_len { assert!(v[j] == buf[offs[k] + ba + j]); j += 1; }
+                    }
+                    acc += want_len;
+                    k += 1;
+                }
+                kani::cover!(o.is_valid(0) && !o.is_valid(1));
+                kani::cover!(o.is_valid(1));
+            }
+            std::mem::forget(out);
+            std::mem::forget(arr);
+        }
+    };
+}
+// rows ["aé€", "b😀"] (widths), non-ASCII path
+// NOT CONFIRMED under load (never seen to finish on the shared machine, load 40-75): keep tier=thorough until re-measured
+// @unit name=substring_by_char_utf8_s1_l1 props=C20 kind=bounded bound=rows=2_widths[(1,2,3),(1,4)]_start=1_length=1_scalars_and_validity_symbolic fns=substring_by_char,substring_by_char_impl,utf8_bounds timeout=900 mem=6 tier=thorough
+by_char_unit!(substring_by_char_utf8_s1_l1, [[1, 2, 3], [1, 4, 0]], 1, Some(1u64));
+// NOT CONFIRMED under load (never seen to finish on the shared machine, load 40-75): keep tier=thorough until re-measured
+// @unit name=substring_by_char_utf8_sneg2_none props=C20 kind=bounded bound=rows=2_widths[(1,2,3),(1,4)]_start=-2_length=None_scalars_and_validity_symbolic fns=substring_by_char,substring_by_char_impl,utf8_bounds timeout=900 mem=6 tier=thorough
+by_char_unit!(substring_by_char_utf8_sneg2_none, [[1, 2, 3], [1, 4, 0]], -2, None::<u64>);
+// rows ["abc", "d"], ASCII fast path
+// NOT CONFIRMED under load (never seen to finish on the shared machine, load 40-75): keep tier=thorough until re-measured
+// @unit name=substring_by_char_ascii_sneg2_l1 props=C20 kind=bounded bound=rows=2_widths[(1,1,1),(1)]_start=-2_length=1_scalars_and_validity_symbolic fns=substring_by_char,substring_by_char_impl,ascii_bounds timeout=900 mem=6 tier=thorough
+by_char_unit!(substring_by_char_ascii_sneg2_l1, [[1, 1, 1], [1, 0, 0]], -2, Some(1u64));
+
+// Contract (C20, byte-based substring on a Utf8 array: "outputs are valid UTF-8 or an error is returned"):
+// for a 2-row StringArray of the given concrete widths (symbolic scalars, symbolic validity) and CONCRETE
+// (start, length) counted in BYTES: with, per row of byte length L (mathematical integers)
+//     a = min(start, L) if start >= 0 else max(L + start, 0);   b = min(a + length, L) or L
+//   byte_substring returns Err  <=>  for some row (valid or null) a or b is not a char boundary;
+//   otherwise Ok(out): 2 rows, validity preserved, offsets = prefix sums of (b - a), row k == bytes [a,b)
+//   of input row k - a byte-indexed slice that starts and ends on char boundaries, hence valid UTF-8.
+//   It never panics.
+// Stubs: alloc::fmt::format.
+macro_rules! byte_sub_unit {
+    ($name:ident, $w:expr, $start:expr, $length:expr, $expect_ok:tt) => {
+        #[kani::proof]
+        #[kani::unwind(26)]
+        #[kani::stub(alloc::fmt::format, stub_format)]
+        fn $name() {
+            const W: [[u8; 3]; 2] = $w;
+            const START: i32 = $start;
+            const LENGTH: Option<i32> = $length;
+            let bits: u8 = kani::any();
+            let (arr, buf, offs, bd) = mk_rows(W, Some(bits));
+            let out = byte_substring::<GenericStringType<i32>>(&arr, START, LENGTH);
+            // model
+            let mut ab = [(0usize, 0usize); 2];
+            let mut split = false;
+            let mut k = 0;
+            while k < 2 {
+                let l = (offs[k + 1] - offs[k]) as i64;
+                let s = START as i64;
+                let a = if s >= 0 { if s < l { s } else { l } } else { if l + s > 0 { l + s } else { 0 } };
+                let b = match LENGTH { None => l, Some(n) => { let e = a + n as i64; if e < l { e } else { l } } };
+                ab[k] = (a as usize, b as usize);
+                if !bd[offs[k] + a as usize] || !bd[offs[k] + b as usize] { split = true; }
+                k += 1;
+            }
+            assert!(out.is_err() == split);
+            if let Ok(r) = &out {
+                let o = r.as_string_opt::<i32>();
+                assert!(o.is_some());
+                let o = o.unwrap();
+                assert!(o.len() == 2);
+                let oo = o.value_offsets();
+                assert!(oo.len() == 3 && oo[0] == 0);
+                let mut acc = 0usize;
+                let mut k = 0;
+                while k < 2 {
+                    let (a, b) = ab[k];
+                    assert!(o.is_valid(k) == ((bits >> k) & 1 == 1));
+                    assert!(oo[k + 1] as usize == acc + (b - a));
+                    let v = o.value(k).as_bytes();
+                    assert!(v.len() == b - a);
+                    let mut j = 0;
+                    while j < b - a { assert!(v[j] == buf[offs[k] + a + j]); j += 1; }
+                    acc += b - a;
+                    k += 1;
+                }
+            }
+            sel!($expect_ok, kani::cover!(out.is_ok()), kani::cover!(out.is_err()));
+            std::mem::forget(out);
+            std::mem::forget(arr);
+        }
+    };
+}
+// rows ["aé€", "b😀"]: start=1,len=2 -> row0 "é" ok, row1 bytes [1,3) split the 4-byte scalar => Err
+// NOT CONFIRMED under load (never seen to finish on the shared machine, load 40-75): keep tier=thorough until re-measured
+// @unit name=byte_substring_utf8_split_err props=C20 kind=bounded bound=rows=2_widths[(1,2,3),(1,4)]_start=1_length=2_scalars_and_validity_symbolic fns=byte_substring timeout=900 mem=6 tier=thorough
+byte_sub_unit!(byte_substring_utf8_split_err, [[1, 2, 3], [1, 4, 0]], 1, Some(2), false);
+// rows ["aé€", "béc"]: start=1,len=2 -> "é", "é" (Ok)
+// NOT CONFIRMED under load (never seen to finish on the shared machine, load 40-75): keep tier=thorough until re-measured
+// @unit name=byte_substring_utf8_ok props=C20 kind=bounded bound=rows=2_widths[(1,2,3),(1,2,1)]_start=1_length=2_scalars_and_validity_symbolic fns=byte_substring timeout=900 mem=6 tier=thorough
+byte_sub_unit!(byte_substring_utf8_ok, [[1, 2, 3], [1, 2, 1]], 1, Some(2), true);
+// negative start: rows ["aé€", "b€"]: start=-3 -> "€", "€" (Ok)
+// NOT CONFIRMED under load (never seen to finish on the shared machine, load 40-75): keep tier=thorough until re-measured
+// @unit name=byte_substring_utf8_neg_start props=C20 kind=bounded bound=rows=2_widths[(1,2,3),(1,3)]_start=-3_length=None_scalars_and_validity_symbolic fns=byte_substring timeout=900 mem=6 tier=thorough
+byte_sub_unit!(byte_substring_utf8_neg_start, [[1, 2, 3], [1, 3, 0]], -3, None, true);
